@@ -533,6 +533,8 @@ def explore(ctx, factor, bs):
             return False  # enough concrete failing inputs; every further one costs the attribution re-runs
         return deadline is None or (time.time() < deadline and not ctx.failures)
 
+    # the open finding, deterministically (independent of the seed)
+    form_case(ctx, {"survey": [{"type": "text", "name": c01_gen.TYPO_LIT, "label": "L"}]}, stream="directed-F5")
     # name probes first: small forms, the cheapest way to a concrete input when a name check changed
     for _ in range(ctx.pick(260, 3000) * factor):
         if not more():
